@@ -404,9 +404,9 @@ def run(tier, pid=PID, only_field_events=False):
                 if tier == "thorough":
                     frees = [set()] + [{a} for a in cmpcfg.PREC[trait]] + [set(cmpcfg.PREC[trait][:2])]
                 elif skind == "struct":
-                    frees = [set(), {rnd.choice(cmpcfg.PREC[trait])}]
+                    frees = [set()] + [{a} for a in cmpcfg.PREC[trait]]
                 else:
-                    frees = [set()]
+                    frees = [set(), {rnd.choice(cmpcfg.PREC[trait])}]
                 for fr in frees:
                     nv, nf = (1, 1)
                     ex, shape, ref = run_builder(eng, obl, out, spec, nv, nf, free_attrs=fr, pid=pid, only_field_events=only_field_events)
